@@ -93,8 +93,10 @@ func tableText(out string) string {
 // ---- (a) reference counts --------------------------------------------------------------------
 
 type CountCase struct {
-	Model mgen.Model `json:"model"`
-	Cli   bool       `json:"cli"`
+	Model   mgen.Model `json:"model"`
+	Cli     bool       `json:"cli"`
+	CliForm int        `json:"cliForm,omitempty"` // spelling of the option: 0 `-d f`, 1 `--dependence f`, 2 `--dependence=f`
+	Prev    bool       `json:"prev,omitempty"`    // another model (one that declares every method this one calls) is counted first in the same process
 }
 
 func genCount(t *rapid.T) CountCase {
@@ -114,7 +116,12 @@ func genCount(t *rapid.T) CountCase {
 		}
 	}
 	k := rapid.IntRange(0, 49).Draw(t, "cli") // mid-range values: rapid favours the ends of a range
-	return CountCase{Model: m, Cli: k == 31 || k == 17}
+	c := CountCase{Model: m, Cli: k == 31 || k == 17}
+	if c.Cli {
+		c.CliForm = rapid.IntRange(0, 2).Draw(t, "cliForm")
+	}
+	c.Prev = rapid.IntRange(0, 2).Draw(t, "prev") == 2
+	return c
 }
 
 func checkCount(c CountCase) pbt.Verdict {
@@ -143,6 +150,14 @@ func checkCount(c CountCase) pbt.Verdict {
 		}
 	}
 	deps := c.Model.ToCoca()
+	if c.Prev {
+		// the second result must not depend on the first: a model in which everything this one
+		// calls is declared (and called) is counted first
+		other := closureModel(c.Model).ToCoca()
+		if p := pbt.Call(func() { count.BuildCallMap(other) }); p != "" {
+			return pbt.Fail("BuildCallMap panicked on the model counted first: %s", p)
+		}
+	}
 	var got map[string]int
 	if p := pbt.Call(func() { got = count.BuildCallMap(deps) }); p != "" {
 		return pbt.Fail("BuildCallMap panicked: %s", p)
@@ -239,6 +254,22 @@ func checkCount(c CountCase) pbt.Verdict {
 	if len(want) >= 3 {
 		v.Classes = append(v.Classes, "called_methods>=3")
 	}
+	if len(want) > 16 {
+		v.Classes = append(v.Classes, "called_methods>16")
+	}
+	if len(want) > 64 {
+		v.Classes = append(v.Classes, "called_methods>64")
+	}
+	if len(declared) > 64 {
+		v.Classes = append(v.Classes, "declared_methods>64")
+	}
+	v.Classes = append(v.Classes, countNameLabels(c.Model, want)...)
+	if c.Prev {
+		v.Classes = append(v.Classes, "counted_after_another_model")
+	}
+	if c.Cli && c.CliForm > 0 {
+		v.Classes = append(v.Classes, "cli_long_option")
+	}
 	simple := map[string]bool{}
 	for _, cl := range c.Model.Classes {
 		if simple[cl.Name] {
@@ -277,7 +308,7 @@ func checkCount(c CountCase) pbt.Verdict {
 	}
 	if c.Cli {
 		v.Classes = append(v.Classes, "cli")
-		if msg := countCLI(deps, want); msg != "" {
+		if msg := countCLI(deps, want, c.CliForm); msg != "" {
 			return pbt.Fail("%s", msg)
 		}
 	}
@@ -286,7 +317,7 @@ func checkCount(c CountCase) pbt.Verdict {
 		lines = append(lines, fmt.Sprintf("%s=%d", k, n))
 	}
 	sort.Strings(lines)
-	v.Canon = fmt.Sprintf("count|%v|%d|%v", lines, sites, c.Cli)
+	v.Canon = fmt.Sprintf("count|%v|%d|%v|%v", lines, sites, c.Cli, c.Prev)
 	return v
 }
 
@@ -299,14 +330,15 @@ func showCounts(m map[string]int) string {
 	return "[" + strings.Join(cells, " ") + "]"
 }
 
-func countCLI(deps []core_domain.CodeDataStruct, want map[string]int) string {
+func countCLI(deps []core_domain.CodeDataStruct, want map[string]int, form int) string {
+	args := [][]string{{"count", "-d", "deps.json"}, {"count", "--dependence", "deps.json"}, {"count", "--dependence=deps.json"}}[form%3]
 	dir := cli.Scratch("c18-count-")
 	defer os.RemoveAll(dir)
 	raw, _ := json.Marshal(deps)
 	cli.WriteTree(dir, map[string]string{"deps.json": string(raw)})
 	var outs []string
 	for i := 0; i < 2; i++ {
-		res, err := cli.Run("coca", dir, nil, "count", "-d", "deps.json")
+		res, err := cli.Run("coca", dir, nil, args...)
 		if err != nil {
 			panic("cannot run coca: " + err.Error())
 		}
@@ -375,6 +407,10 @@ type JMethod struct {
 	Abstract bool     `json:"abstract,omitempty"`
 	Generic  bool     `json:"generic,omitempty"` // `<T>` between the modifiers and the return type
 	Before   []string `json:"before,omitempty"`  // other members written before the method (fields, initialiser blocks)
+	Doc      string   `json:"doc,omitempty"`     // comment written on the lines before the method (ignored when Joined)
+	Inline   string   `json:"inline,omitempty"`  // block comment written between the modifiers and the return type
+	Split    int      `json:"split,omitempty"`   // header layout: 0 one line, 1 one token per line, 2 runs of blanks and tabs, blanks inside the brackets
+	Joined   bool     `json:"joined,omitempty"`  // the method starts on the line on which the member before it ends
 }
 
 type JClass struct {
@@ -384,11 +420,26 @@ type JClass struct {
 	Mods    []string  `json:"mods"`
 	Methods []JMethod `json:"methods"`
 	After   []string  `json:"after,omitempty"` // other members written after the last method
+	// widened header and layout (all plain when zero)
+	Anns       []string `json:"anns,omitempty"`       // annotations of the class, each on its own line
+	TypeParams string   `json:"typeParams,omitempty"` // "<T>"
+	Extends    string   `json:"extends,omitempty"`
+	Implements []string `json:"implements,omitempty"`
+	Imports    []string `json:"imports,omitempty"`   // further import lines (text after `import `, without the semicolon)
+	AnnImport  string   `json:"annImport,omitempty"` // how @Nullable / @CheckForNull are imported: "" javax by name, "wildcard", "other" (another library), "none"
+	Head       string   `json:"head,omitempty"`      // text before the package declaration (comments, blank lines)
+	Tail       string   `json:"tail,omitempty"`      // text after the closing brace
+	Crlf       bool     `json:"crlf,omitempty"`
+	Tabs       bool     `json:"tabs,omitempty"`
+	NoEOL      bool     `json:"noEol,omitempty"` // no line terminator at the end of the file
 }
 
 type EvalCase struct {
 	Classes []JClass `json:"classes"`
 	Cli     bool     `json:"cli"`
+	CliForm int      `json:"cliForm,omitempty"` // spelling of the command-line options (0 = `-p proj`, no option for evaluate)
+	Extras  []string `json:"extras,omitempty"`  // further files of the project that declare no class (keys of extraFiles)
+	Prev    bool     `json:"prev,omitempty"`    // another model is evaluated in the same process before this one
 }
 
 var (
@@ -399,7 +450,7 @@ var (
 	tails    = []string{"", "", "", "", "Helper", "Impl"}
 	mNames      = []string{"load", "save", "findUser", "getName", "setName", "compute", "resolve", "parseInput", "toText", "isReady", "build", "apply", "handle", "fetchAll", "lookup", "getValue"}
 	javaPkgs    = []string{"com.acme", "com.acme.core", "com.acme.web", "org.demo", "app", "com.acme.util", "org.demo.service.utils"}
-	nullKinds   = map[string]bool{"null": true, "condNullThen": true, "condNullElse": true}
+	nullKinds   = map[string]bool{"null": true, "condNullThen": true, "condNullElse": true, "parenNull": true, "castNull": true, "cmpNullThen": true, "nestedCondNull": true}
 	refExprs    = []string{"lit", "field", "lit2", "condPlain", "null", "condNullThen", "condNullElse", "null"}
 	// expressions that mention null without being able to return it (feature return_mentions_null)
 	refMentions  = []string{"nullGuard", "nullText", "nullIdent", "nullArgCmp"}
@@ -411,15 +462,19 @@ var (
 		// names that only resemble the two nullability annotations, and the marker form with parentheses
 		"@NonNull", "@NotNullable", "@NullableDecl", "@Nullable()"}
 	// the two annotations written with their package (feature qualified_nullable_annotation)
-	qualifiedAnnotations = []string{"@javax.annotation.Nullable", "@javax.annotation.CheckForNull"}
-	nullAnnotations      = map[string]bool{"@Nullable": true, "@CheckForNull": true, "@Nullable()": true, "@javax.annotation.Nullable": true, "@javax.annotation.CheckForNull": true}
+	qualifiedAnnotations = []string{"@javax.annotation.Nullable", "@javax.annotation.CheckForNull", "@org.jetbrains.annotations.Nullable", "@edu.umd.cs.findbugs.annotations.CheckForNull"}
+	nullAnnotations      = map[string]bool{"@Nullable": true, "@CheckForNull": true, "@Nullable()": true, "@javax.annotation.Nullable": true, "@javax.annotation.CheckForNull": true,
+		"@org.jetbrains.annotations.Nullable": true, "@edu.umd.cs.findbugs.annotations.CheckForNull": true,
+		`@Nullable("may be absent")`: true, "@CheckForNull(when = javax.annotation.meta.When.MAYBE)": true}
 	// members other than methods, written between the methods; %d is replaced by a number unique in the class
 	otherMembers = []string{"private int extra%d;", "@Nullable private String extra%d;", "@CheckForNull private static Object extra%d;", "private static int extra%d = 0;",
 		"static { count = %d; }", "private String extra%d = null;", "{ value = null; }", "private static final String extra%d = \"null\";"}
 	loopKinds = []string{"forreturn", "whilereturn", "tryreturn", "switchreturn"}
 	// statements that handle the null literal without returning it, and an annotated local
 	// variable; %d is replaced by the number of the statement (local names stay unique)
-	nullFillers = []string{"value = null;", "Object tmp%d = null;", "@Nullable Object tmp%d = value;", "if (value == null) { value = \"w\"; }"}
+	nullFillers = []string{"value = null;", "Object tmp%d = null;", "@Nullable Object tmp%d = value;", "if (value == null) { value = \"w\"; }",
+		// the words `return null;` where they are no statement: in a string literal, in comments
+		"value = \"return null;\";", "// return null;", "/* return null; */ count++;", "count++; // static @Nullable return null;"}
 	// Members that hold a lambda: the returns of a lambda are not returns of any method of the
 	// class. LAMBDA / TYPE are replaced by the text and the functional-interface type of the
 	// lambda, %d by a number unique in the class.
@@ -506,7 +561,7 @@ func permute(t *rapid.T, in []string, label string) []string {
 // shrinking moves towards the plain variant.
 func stmtGen(ret string) *rapid.Generator[JStmt] {
 	return rapid.Custom(func(t *rapid.T) JStmt {
-		k := rapid.IntRange(0, 7).Draw(t, "stmt")
+		k := rapid.IntRange(0, 8).Draw(t, "stmt")
 		if k < 2 {
 			return JStmt{Kind: "filler", Text: rapid.SampledFrom(fillers).Draw(t, "filler")}
 		}
@@ -528,6 +583,10 @@ func stmtGen(ret string) *rapid.Generator[JStmt] {
 		if k == 5 {
 			// a return inside a loop, a catch clause or a switch group: still "on some path"
 			return JStmt{Kind: rapid.SampledFrom(loopKinds).Draw(t, "nesting"), Cond: rapid.SampledFrom(conds).Draw(t, "cond"), Expr: retExpr(t, ret)}
+		}
+		if k == 8 {
+			// ... inside do-while, synchronized, finally, if in if in if, a labelled block, the else branch only
+			return JStmt{Kind: rapid.SampledFrom(moreNestings).Draw(t, "otherNesting"), Cond: rapid.SampledFrom(conds).Draw(t, "cond"), Expr: retExpr(t, ret)}
 		}
 		return JStmt{Kind: "ifreturn", Cond: rapid.SampledFrom(conds).Draw(t, "cond"), Expr: retExpr(t, ret),
 			Bare: rapid.IntRange(0, 3).Draw(t, "bareIf") == 3}
@@ -576,6 +635,9 @@ func methodGen(abstractClass bool) *rapid.Generator[JMethod] {
 				pool = append(append([]string{}, annotations...), qualifiedAnnotations...)
 			}
 			a := rapid.SampledFrom(pool).Draw(t, "annotation")
+			if with := annotationWithArguments[a]; with != "" && rapid.IntRange(0, 3).Draw(t, "annotationArguments") == 3 {
+				a = with
+			}
 			if !ref && nullAnnotations[a] {
 				a = "@Deprecated"
 			}
@@ -587,12 +649,18 @@ func methodGen(abstractClass bool) *rapid.Generator[JMethod] {
 			if nullAnnotations[a] && rapid.IntRange(0, 2).Draw(t, "bothNullAnnotations") == 2 {
 				// both nullability annotations on one method: it is still listed once
 				other := "@CheckForNull"
-				if strings.HasSuffix(a, "CheckForNull") {
+				if strings.Contains(a, "CheckForNull") {
 					other = "@Nullable"
 				}
 				mods = append(mods[:pos+1], append([]string{other}, mods[pos+1:]...)...)
 			}
 			m.OwnLine = pos == 0 && rapid.Bool().Draw(t, "ownLine")
+		}
+		if rapid.IntRange(0, 3).Draw(t, "extraAnnotation") == 3 {
+			// one more annotation that says nothing about null, before, between or after the rest
+			x := rapid.SampledFrom(extraAnnotations).Draw(t, "extraAnnotationText")
+			at := rapid.IntRange(0, len(mods)).Draw(t, "extraAnnotationPos")
+			mods = append(mods[:at], append([]string{x}, mods[at:]...)...)
 		}
 		m.Mods = mods
 		if rapid.IntRange(0, 5).Draw(t, "generic") == 5 && !pbt.Excluded("generic_method") {
@@ -603,6 +671,10 @@ func methodGen(abstractClass bool) *rapid.Generator[JMethod] {
 		for i := range m.Params {
 			m.Params[i].Name = fmt.Sprintf("p%d", i)
 		}
+		if rapid.IntRange(0, 5).Draw(t, "specialName") == 5 {
+			m.Name = rapid.SampledFrom(specialMethodNames).Draw(t, "specialMethodName")
+		}
+		methodLayoutGen(t, &m)
 		if m.Abstract {
 			return m
 		}
@@ -631,7 +703,13 @@ func retExpr(t *rapid.T, ret string) string {
 	}
 	switch ret {
 	case "String", "Object":
-		return rapid.SampledFrom(mention(refExprs, refMentions)).Draw(t, "expr")
+		k := rapid.SampledFrom(mention(refExprs, refMentions)).Draw(t, "expr")
+		// another way of writing the same kind of value: null in parentheses or under a cast, null
+		// returned by an expression that also compares with null, a nested conditional expression
+		if v := exprVariants[k]; len(v) > 0 && rapid.IntRange(0, 3).Draw(t, "exprVariant") == 3 {
+			k = rapid.SampledFrom(v).Draw(t, "variantOf")
+		}
+		return k
 	case "int":
 		return rapid.SampledFrom(mention([]string{"zero", "count"}, intMentions)).Draw(t, "expr")
 	case "boolean":
@@ -640,7 +718,7 @@ func retExpr(t *rapid.T, ret string) string {
 	return "bare"
 }
 
-func classGen(layout string) *rapid.Generator[JClass] {
+func classGen(layout string, maxMethods int) *rapid.Generator[JClass] {
 	return rapid.Custom(func(t *rapid.T) JClass {
 		cl := JClass{Layout: layout, Pkg: rapid.SampledFrom(javaPkgs).Draw(t, "pkg")}
 		cl.Name = rapid.SampledFrom(baseNames).Draw(t, "base") + rapid.SampledFrom(suffixes).Draw(t, "suffix")
@@ -656,7 +734,7 @@ func classGen(layout string) *rapid.Generator[JClass] {
 			mods = append(mods, "final")
 		}
 		cl.Mods = permute(t, mods, "classPerm")
-		cl.Methods = rapid.SliceOfN(methodGen(abstract), 0, 5).Draw(t, "methods")
+		cl.Methods = rapid.SliceOfN(methodGen(abstract), 0, maxMethods).Draw(t, "methods")
 		used := map[string]bool{}
 		for j := range cl.Methods {
 			if used[cl.Methods[j].Name] {
@@ -679,6 +757,18 @@ func classGen(layout string) *rapid.Generator[JClass] {
 		}
 		// ... and after the last method (the only members of a class without methods)
 		cl.After = number(rapid.SliceOfN(memberGen, 0, 2).Draw(t, "membersAfter"))
+		if rapid.IntRange(0, 5).Draw(t, "exoticClassName") == 5 {
+			cl.Name = rapid.SampledFrom(exoticClassNames).Draw(t, "exoticName")
+		}
+		classDressGen(t, &cl)
+		if rapid.IntRange(0, 7).Draw(t, "defaultPackage") == 7 {
+			// no package declaration; how the methods of such a class are named in the nullable list
+			// is not settled, so none of them is nullable
+			cl.Pkg = ""
+			for j := range cl.Methods {
+				denull(&cl.Methods[j])
+			}
+		}
 		return cl
 	})
 }
@@ -687,7 +777,12 @@ func genEval(t *rapid.T) EvalCase {
 	var c EvalCase
 	layout := rapid.SampledFrom([]string{"", "src/main/java/"}).Draw(t, "layout")
 	seen := map[string]bool{}
-	for _, cl := range rapid.SliceOfN(classGen(layout), 1, 4).Draw(t, "classes") {
+	// 1 project in 12 is larger: up to 10 classes of up to 10 methods
+	minClasses, maxClasses, maxMethods := 1, 4, 5
+	if rapid.IntRange(0, 11).Draw(t, "big") == 11 {
+		minClasses, maxClasses, maxMethods = 5, 10, 10
+	}
+	for _, cl := range rapid.SliceOfN(classGen(layout, maxMethods), minClasses, maxClasses).Draw(t, "classes") {
 		if !seen[cl.Pkg+"."+cl.Name] {
 			seen[cl.Pkg+"."+cl.Name] = true
 			c.Classes = append(c.Classes, cl)
@@ -697,12 +792,20 @@ func genEval(t *rapid.T) EvalCase {
 	if rapid.IntRange(0, 3).Draw(t, "twin") == 3 {
 		twin := c.Classes[rapid.IntRange(0, len(c.Classes)-1).Draw(t, "twinOf")]
 		twin.Pkg = rapid.SampledFrom(javaPkgs).Draw(t, "twinPkg")
+		twin.Methods = append([]JMethod{}, twin.Methods...)
 		if !seen[twin.Pkg+"."+twin.Name] {
 			seen[twin.Pkg+"."+twin.Name] = true
 			c.Classes = append(c.Classes, twin)
 		}
 	}
 	c.Cli = rapid.IntRange(0, 9).Draw(t, "cli") == 9
+	if c.Cli {
+		c.CliForm = rapid.IntRange(0, 2).Draw(t, "cliForm")
+	}
+	if rapid.IntRange(0, 3).Draw(t, "extraFiles") == 3 {
+		c.Extras = rapid.SliceOfNDistinct(rapid.SampledFrom(extraFileKeys), 1, 4, func(s string) string { return s }).Draw(t, "extras")
+	}
+	c.Prev = rapid.IntRange(0, 2).Draw(t, "prev") == 2
 	return c
 }
 
@@ -744,6 +847,16 @@ func exprText(kind string) string {
 		return "value != null && flag"
 	case "nullCount":
 		return "value == null ? 0 : count"
+	case "parenNull":
+		return "(null)"
+	case "castNull":
+		return "(String) null"
+	case "cmpNullThen":
+		return "value == null ? null : value"
+	case "nestedCondNull":
+		return `flag ? "a" : (count > 0 ? null : "b")`
+	case "nestedCondPlain":
+		return `flag ? "a" : (count > 0 ? "c" : "b")`
 	}
 	panic("unknown expression kind " + kind)
 }
@@ -756,18 +869,33 @@ func returnText(kind string) string {
 }
 
 func (cl JClass) path() string {
+	if cl.Pkg == "" { // default package: the file lies in the source root
+		return cl.Layout + cl.Name + ".java"
+	}
 	return cl.Layout + strings.ReplaceAll(cl.Pkg, ".", "/") + "/" + cl.Name + ".java"
 }
 
-func (cl JClass) render() string {
-	var b strings.Builder
-	fmt.Fprintf(&b, "package %s;\n\n", cl.Pkg)
+// nullImport matches a nullability annotation written by its simple name (with or without
+// arguments): the two that need an import.
+var nullImport = regexp.MustCompile(`^@(Nullable|CheckForNull)($|[^A-Za-z0-9_.])`)
+
+func (cl JClass) importLines() []string {
 	imports := map[string]bool{}
 	need := func(text string) {
-		for _, a := range []string{"Nullable", "CheckForNull"} {
-			if strings.HasPrefix(text, "@"+a+" ") || text == "@"+a || text == "@"+a+"()" {
-				imports["javax.annotation."+a] = true
-			}
+		m := nullImport.FindStringSubmatch(text)
+		if m == nil {
+			return
+		}
+		switch cl.AnnImport {
+		case "":
+			imports["javax.annotation."+m[1]] = true
+		case "wildcard":
+			imports["javax.annotation.*"] = true
+		case "other":
+			imports[map[string]string{"Nullable": "org.jetbrains.annotations.Nullable", "CheckForNull": "edu.umd.cs.findbugs.annotations.CheckForNull"}[m[1]]] = true
+		case "none":
+		default:
+			panic("unknown annotation import style " + cl.AnnImport)
 		}
 	}
 	for _, m := range cl.Methods {
@@ -792,23 +920,35 @@ func (cl JClass) render() string {
 		imps = append(imps, k)
 	}
 	sort.Strings(imps)
-	for _, k := range imps {
-		fmt.Fprintf(&b, "import %s;\n", k)
-	}
-	if len(imps) > 0 {
-		b.WriteString("\n")
-	}
-	if len(cl.Mods) > 0 {
-		b.WriteString(strings.Join(cl.Mods, " ") + " ")
-	}
-	fmt.Fprintf(&b, "class %s {\n", cl.Name)
-	b.WriteString("    private static String value = \"v\";\n    private static boolean flag;\n    private static int count;\n    private static String nullable = \"n\";\n")
-	for _, m := range cl.Methods {
-		for _, x := range m.Before {
-			b.WriteString("\n    " + x + "\n")
+	// further imports (wildcard, static, duplicates) in the drawn order, around the needed ones
+	for i, x := range cl.Imports {
+		if i%2 == 0 {
+			imps = append(imps, x)
+		} else {
+			imps = append([]string{x}, imps...)
 		}
-		b.WriteString("\n    ")
-		mods := m.Mods
+	}
+	return imps
+}
+
+// header renders the declaration of a method up to and including `{` or `;`.
+func (m JMethod) header() string {
+	mods := append([]string{}, m.Mods...)
+	var ps []string
+	for _, p := range m.Params {
+		if p.Ann != "" {
+			ps = append(ps, p.Ann+" "+p.Type+" "+p.Name)
+		} else {
+			ps = append(ps, p.Type+" "+p.Name)
+		}
+	}
+	end := "{"
+	if m.Abstract {
+		end = ";"
+	}
+	switch m.Split {
+	case 0:
+		var b strings.Builder
 		if m.OwnLine && len(mods) > 0 && strings.HasPrefix(mods[0], "@") {
 			b.WriteString(mods[0] + "\n    ")
 			mods = mods[1:]
@@ -816,60 +956,161 @@ func (cl JClass) render() string {
 		if len(mods) > 0 {
 			b.WriteString(strings.Join(mods, " ") + " ")
 		}
-		var ps []string
-		for _, p := range m.Params {
-			if p.Ann != "" {
-				ps = append(ps, p.Ann+" "+p.Type+" "+p.Name)
-			} else {
-				ps = append(ps, p.Type+" "+p.Name)
-			}
+		if m.Inline != "" {
+			b.WriteString(m.Inline + " ")
 		}
 		if m.Generic {
 			b.WriteString("<T> ")
 		}
 		fmt.Fprintf(&b, "%s %s(%s)", m.Ret, m.Name, strings.Join(ps, ", "))
 		if m.Abstract {
-			b.WriteString(";\n")
-			continue
+			return b.String() + ";"
 		}
-		b.WriteString(" {\n")
-		for si, s := range m.Stmts {
-			switch s.Kind {
-			case "filler":
-				b.WriteString("        " + strings.ReplaceAll(s.Text, "%d", fmt.Sprint(si)) + "\n")
-			case "lambda":
-				typ, text := lambdaText(s)
-				fmt.Fprintf(&b, "        %s fn%d = %s;\n", typ, si, text)
-			case "ifreturn":
-				if s.Bare {
-					fmt.Fprintf(&b, "        if (%s) %s\n", s.Cond, returnText(s.Expr))
-				} else {
-					fmt.Fprintf(&b, "        if (%s) {\n            %s\n        }\n", s.Cond, returnText(s.Expr))
-				}
-			case "ifelse":
-				fmt.Fprintf(&b, "        if (%s) {\n            %s\n        } else {\n            %s\n        }\n", s.Cond, returnText(s.Expr), returnText(s.Else))
-			case "forreturn":
-				fmt.Fprintf(&b, "        for (int i = 0; i < count; i++) {\n            if (%s) {\n                %s\n            }\n        }\n", s.Cond, returnText(s.Expr))
-			case "whilereturn":
-				fmt.Fprintf(&b, "        while (count > 3) {\n            count--;\n            if (%s) %s\n        }\n", s.Cond, returnText(s.Expr))
-			case "tryreturn":
-				fmt.Fprintf(&b, "        try {\n            count = count / 2;\n        } catch (RuntimeException e) {\n            %s\n        }\n", returnText(s.Expr))
-			case "switchreturn":
-				fmt.Fprintf(&b, "        switch (count) {\n        case 1:\n            %s\n        default:\n            break;\n        }\n", returnText(s.Expr))
-			default:
-				panic("unknown statement kind " + s.Kind)
+		return b.String() + " {"
+	case 1, 2:
+		toks := mods
+		if m.Inline != "" {
+			toks = append(toks, m.Inline)
+		}
+		if m.Generic {
+			toks = append(toks, "<T>")
+		}
+		toks = append(toks, m.Ret, m.Name, "(")
+		for i, p := range ps {
+			if i > 0 {
+				toks = append(toks, ",")
 			}
+			toks = append(toks, p)
 		}
-		if m.Last != "" {
-			b.WriteString("        " + returnText(m.Last) + "\n")
+		toks = append(toks, ")", end)
+		if m.Split == 1 {
+			return strings.Join(toks, "\n    ")
 		}
-		b.WriteString("    }\n")
+		return strings.Join(toks, "  \t ")
+	}
+	panic(fmt.Sprintf("unknown header layout %d", m.Split))
+}
+
+func (m JMethod) render() string {
+	var b strings.Builder
+	if m.Doc != "" && !m.Joined {
+		b.WriteString(m.Doc + "\n    ")
+	}
+	b.WriteString(m.header())
+	if m.Abstract {
+		return b.String()
+	}
+	b.WriteString("\n")
+	for si, s := range m.Stmts {
+		switch s.Kind {
+		case "filler":
+			b.WriteString("        " + strings.ReplaceAll(s.Text, "%d", fmt.Sprint(si)) + "\n")
+		case "lambda":
+			typ, text := lambdaText(s)
+			fmt.Fprintf(&b, "        %s fn%d = %s;\n", typ, si, text)
+		case "ifreturn":
+			if s.Bare {
+				fmt.Fprintf(&b, "        if (%s) %s\n", s.Cond, returnText(s.Expr))
+			} else {
+				fmt.Fprintf(&b, "        if (%s) {\n            %s\n        }\n", s.Cond, returnText(s.Expr))
+			}
+		case "ifelse":
+			fmt.Fprintf(&b, "        if (%s) {\n            %s\n        } else {\n            %s\n        }\n", s.Cond, returnText(s.Expr), returnText(s.Else))
+		case "forreturn":
+			fmt.Fprintf(&b, "        for (int i = 0; i < count; i++) {\n            if (%s) {\n                %s\n            }\n        }\n", s.Cond, returnText(s.Expr))
+		case "whilereturn":
+			fmt.Fprintf(&b, "        while (count > 3) {\n            count--;\n            if (%s) %s\n        }\n", s.Cond, returnText(s.Expr))
+		case "tryreturn":
+			fmt.Fprintf(&b, "        try {\n            count = count / 2;\n        } catch (RuntimeException e) {\n            %s\n        }\n", returnText(s.Expr))
+		case "switchreturn":
+			fmt.Fprintf(&b, "        switch (count) {\n        case 1:\n            %s\n        default:\n            break;\n        }\n", returnText(s.Expr))
+		case "doreturn":
+			fmt.Fprintf(&b, "        do {\n            count--;\n            if (%s) %s\n        } while (count > 3);\n", s.Cond, returnText(s.Expr))
+		case "syncreturn":
+			fmt.Fprintf(&b, "        synchronized (value) {\n            if (%s) {\n                %s\n            }\n        }\n", s.Cond, returnText(s.Expr))
+		case "finallyreturn":
+			fmt.Fprintf(&b, "        try {\n            count++;\n        } finally {\n            if (%s) {\n                %s\n            }\n        }\n", s.Cond, returnText(s.Expr))
+		case "nestedifreturn":
+			fmt.Fprintf(&b, "        if (flag) {\n            if (%s) {\n                if (count < 9) %s\n            }\n        }\n", s.Cond, returnText(s.Expr))
+		case "labeledreturn":
+			fmt.Fprintf(&b, "        block%d: {\n            if (%s) {\n                %s\n            }\n        }\n", si, s.Cond, returnText(s.Expr))
+		case "elsereturn":
+			fmt.Fprintf(&b, "        if (%s) {\n            count++;\n        } else {\n            %s\n        }\n", s.Cond, returnText(s.Expr))
+		default:
+			panic("unknown statement kind " + s.Kind)
+		}
+	}
+	if m.Last != "" {
+		b.WriteString("        " + returnText(m.Last) + "\n")
+	}
+	b.WriteString("    }")
+	return b.String()
+}
+
+func (cl JClass) render() string {
+	var b strings.Builder
+	b.WriteString(cl.Head)
+	if cl.Pkg != "" {
+		fmt.Fprintf(&b, "package %s;\n\n", cl.Pkg)
+	}
+	imps := cl.importLines()
+	for _, k := range imps {
+		fmt.Fprintf(&b, "import %s;\n", k)
+	}
+	if len(imps) > 0 {
+		b.WriteString("\n")
+	}
+	for _, a := range cl.Anns {
+		b.WriteString(a + "\n")
+	}
+	if len(cl.Mods) > 0 {
+		b.WriteString(strings.Join(cl.Mods, " ") + " ")
+	}
+	fmt.Fprintf(&b, "class %s%s", cl.Name, cl.TypeParams)
+	if cl.Extends != "" {
+		b.WriteString(" extends " + cl.Extends)
+	}
+	if len(cl.Implements) > 0 {
+		b.WriteString(" implements " + strings.Join(cl.Implements, ", "))
+	}
+	b.WriteString(" {\n")
+	b.WriteString("    private static String value = \"v\";\n    private static boolean flag;\n    private static int count;\n    private static String nullable = \"n\";")
+	for _, m := range cl.Methods {
+		for _, x := range m.Before {
+			b.WriteString("\n\n    " + x)
+		}
+		if m.Joined {
+			b.WriteString(" ")
+		} else {
+			b.WriteString("\n\n    ")
+		}
+		b.WriteString(m.render())
 	}
 	for _, x := range cl.After {
-		b.WriteString("\n    " + x + "\n")
+		b.WriteString("\n\n    " + x)
 	}
-	b.WriteString("}\n")
-	return b.String()
+	b.WriteString("\n}\n")
+	b.WriteString(cl.Tail)
+	// %LONG% stands for a run of 70000 letters (a line longer than 65536 bytes)
+	text := strings.ReplaceAll(b.String(), "%LONG%", strings.Repeat("x", 70000))
+	if cl.Tabs {
+		lines := strings.Split(text, "\n")
+		for i, line := range lines {
+			n := 0
+			for strings.HasPrefix(line[n:], "    ") {
+				n += 4
+			}
+			lines[i] = strings.Repeat("\t", n/4) + line[n:]
+		}
+		text = strings.Join(lines, "\n")
+	}
+	if cl.NoEOL {
+		text = strings.TrimRight(text, "\n")
+	}
+	if cl.Crlf {
+		text = strings.ReplaceAll(text, "\n", "\r\n")
+	}
+	return text
 }
 
 // ---- syntax validation with the shipped parser ------------------------------------------------
@@ -902,7 +1143,8 @@ type evalWant struct {
 	nullable                        map[string]bool
 }
 
-var utilWord = regexp.MustCompile(`Utils?($|[A-Z])`)
+// the word Util / Utils in a class name: followed by the end of the name, a capital, a digit, `_` or `$`
+var utilWord = regexp.MustCompile(`Utils?($|[^a-z])`)
 
 func expectEval(c EvalCase) evalWant {
 	w := evalWant{nullable: map[string]bool{}}
@@ -954,6 +1196,17 @@ func checkEval(c EvalCase) pbt.Verdict {
 		}
 		files["proj/"+cl.path()] = text
 	}
+	for rel, text := range extraFileTree(c) {
+		if _, clash := files["proj/"+rel]; clash {
+			return pbt.Verdict{Skip: true}
+		}
+		if strings.HasSuffix(rel, ".java") {
+			if errs := syntaxErrors(text); len(errs) > 0 {
+				panic(fmt.Sprintf("GENERATOR BUG: the shipped Java parser rejects a generated file: %v\n%s", errs, text))
+			}
+		}
+		files["proj/"+rel] = text
+	}
 	dir := cli.Scratch("c18-eval-")
 	defer os.RemoveAll(dir)
 	cli.WriteTree(dir, files)
@@ -961,6 +1214,13 @@ func checkEval(c EvalCase) pbt.Verdict {
 		_ = os.MkdirAll(filepath.Join(dir, "proj"), 0755)
 	}
 	want := expectEval(c)
+	for _, it := range sortedSet(want.nullable) {
+		if strings.HasPrefix(it, ".") {
+			// a nullable method in a class of the default package: how it is named in the list is
+			// not settled (the generator makes no such case)
+			return pbt.Verdict{Skip: true}
+		}
+	}
 	resetJava()
 	var result evaluator.EvaluateModel
 	var nodesKept, identsKept []core_domain.CodeDataStruct
@@ -972,6 +1232,10 @@ func checkEval(c EvalCase) pbt.Verdict {
 			fullApp := javaapp.NewJavaFullApp()
 			nodes := fullApp.AnalysisPath(src, idents)
 			nodesKept, identsKept = nodes, idents
+			if c.Prev {
+				// another model first, in the same process: it must leave no trace
+				evaluate.NewEvaluateAnalyser().Analysis(otherModel(nodes), otherModel(idents))
+			}
 			result = evaluate.NewEvaluateAnalyser().Analysis(nodes, idents)
 		})
 	}); p != "" {
@@ -1008,7 +1272,7 @@ func checkEval(c EvalCase) pbt.Verdict {
 		return pbt.Fail("second Analyser.Analysis on the same lists: Nullable.Items [%s], the first evaluation gave [%s]\n%s", a, b, dump(files))
 	}
 	if c.Cli {
-		if msg := evalCLI(dir, want); msg != "" {
+		if msg := evalCLI(dir, want, c.CliForm); msg != "" {
 			return pbt.Fail("%s\n%s", msg, dump(files))
 		}
 	}
@@ -1046,21 +1310,24 @@ func dump(files map[string]string) string {
 	sort.Strings(names)
 	var b strings.Builder
 	for _, k := range names {
-		fmt.Fprintf(&b, "--- %s\n%s", k, files[k])
+		fmt.Fprintf(&b, "--- %s\n%s", k, strings.ReplaceAll(files[k], strings.Repeat("x", 70000), "%LONG%"))
 	}
 	return b.String()
 }
 
 // evalCLI runs `coca analysis -p proj` and `coca evaluate` in dir and reads the stdout table.
-func evalCLI(dir string, w evalWant) string {
-	res, err := cli.Run("coca", dir, nil, "analysis", "-p", "proj")
+func evalCLI(dir string, w evalWant, form int) string {
+	// the same two commands with their options spelled in the ways the command line allows
+	analysis := [][]string{{"analysis", "-p", "proj"}, {"analysis", "--path", "proj", "--identify=true"}, {"analysis", "--path=proj", "-i"}}[form%3]
+	evaluation := [][]string{{"evaluate"}, {"evaluate", "-d", "coca_reporter/deps.json"}, {"evaluate", "--dependence=coca_reporter/deps.json"}}[form%3]
+	res, err := cli.Run("coca", dir, nil, analysis...)
 	if err != nil {
 		panic("cannot run coca: " + err.Error())
 	}
 	if res.ExitCode != 0 || res.TimedOut {
-		return fmt.Sprintf("`coca analysis -p proj` exited with %d\n%s", res.ExitCode, res.Stderr)
+		return fmt.Sprintf("`coca %s` exited with %d\n%s", strings.Join(analysis, " "), res.ExitCode, res.Stderr)
 	}
-	res, err = cli.Run("coca", dir, nil, "evaluate")
+	res, err = cli.Run("coca", dir, nil, evaluation...)
 	if err != nil {
 		panic("cannot run coca: " + err.Error())
 	}
@@ -1129,7 +1396,9 @@ func classifyEval(c EvalCase, w evalWant) pbt.Verdict {
 		if strings.Contains(cl.Name, "Service") {
 			set["service_class"] = true
 		}
+		classLabels(set, cl)
 		for _, m := range cl.Methods {
+			methodLabels(set, m)
 			var plain []string
 			annPos := -1
 			for i, x := range m.Mods {
@@ -1186,6 +1455,14 @@ func classifyEval(c EvalCase, w evalWant) pbt.Verdict {
 					if nullKinds[s.Expr] {
 						set["return_null_in_loop_catch_switch"] = true
 					}
+					for _, k := range moreNestings {
+						if s.Kind == k {
+							set["return_in_do_synchronized_finally_nested_if_labelled_block_or_else"] = true
+							if nullKinds[s.Expr] {
+								set["return_null_in_do_synchronized_finally_nested_if_labelled_block_or_else"] = true
+							}
+						}
+					}
 				}
 				if s.Kind == "ifelse" {
 					sites = append(sites, s.Expr, s.Else)
@@ -1239,6 +1516,8 @@ func classifyEval(c EvalCase, w evalWant) pbt.Verdict {
 							set["not_nullable_although_a_lambda_in_it_returns_null"] = true
 						}
 					}
+				case s.Kind == "filler" && strings.Contains(s.Text, "return null;"):
+					set["the_words_return_null_in_a_string_or_comment"] = true
 				case s.Kind == "filler" && strings.HasPrefix(s.Text, "@"):
 					set["annotated_local_variable"] = true
 				case s.Kind == "filler" && strings.Contains(s.Text, "null"):
@@ -1252,9 +1531,18 @@ func classifyEval(c EvalCase, w evalWant) pbt.Verdict {
 				if !nullKinds[k] {
 					continue
 				}
-				if k == "null" {
+				switch k {
+				case "null":
 					set["return_null_literal"] = true
-				} else {
+				case "parenNull", "castNull":
+					set["return_null_in_parentheses_or_under_a_cast"] = true
+				case "cmpNullThen":
+					set["null_compared_and_returned_in_one_expression"] = true
+					set["null_in_conditional_expression"] = true
+				case "nestedCondNull":
+					set["null_in_nested_conditional_expression"] = true
+					set["null_in_conditional_expression"] = true
+				default:
 					set["null_in_conditional_expression"] = true
 				}
 				if i < len(sites)-1 {
@@ -1290,6 +1578,31 @@ func classifyEval(c EvalCase, w evalWant) pbt.Verdict {
 	if len(c.Classes) >= 2 {
 		set["classes>=2"] = true
 	}
+	if len(c.Classes) >= 5 {
+		set["classes>=5"] = true
+	}
+	if w.methods >= 17 {
+		set["methods>=17"] = true
+	}
+	if w.methods >= 33 {
+		set["methods>=33"] = true
+	}
+	if len(w.nullable) >= 9 {
+		set["nullable_methods>=9"] = true
+	}
+	if len(w.nullable) >= 17 {
+		set["nullable_methods>=17"] = true
+	}
+	for _, k := range c.Extras {
+		set["extra_files_without_a_class"] = true
+		set["extra_file_"+k] = true
+	}
+	if c.Prev {
+		set["evaluated_after_another_model"] = true
+	}
+	if c.Cli && c.CliForm > 0 {
+		set["cli_long_or_explicit_options"] = true
+	}
 	if c.Cli {
 		set["cli"] = true
 	}
@@ -1302,6 +1615,8 @@ func classifyEval(c EvalCase, w evalWant) pbt.Verdict {
 type ConceptCase struct {
 	Classes [][][]string `json:"classes"` // class -> method -> words of its camelCase name
 	Cli     bool         `json:"cli"`
+	CliForm int          `json:"cliForm,omitempty"` // spelling of the option: 0 `-d f`, 1 `--dependence f`, 2 `--dependence=f`
+	Prev    [][]string   `json:"prev,omitempty"`    // method names of another model, analysed first in the same process
 }
 
 var plainWord = regexp.MustCompile(`^[a-z]{2,12}$`)
@@ -1310,7 +1625,9 @@ var plainWord = regexp.MustCompile(`^[a-z]{2,12}$`)
 // (PascalCase, "LoadUser"), or an acronym in capitals ("parseXMLFile", "getURL"). Two acronyms
 // never touch (where one ends and the next begins would be anybody's guess).
 var (
-	capitalWord = regexp.MustCompile(`^[A-Z][a-z]{1,11}$`)
+	// words of a name: letters of any alphabet that has two cases, up to 40 of them
+	lowerWord   = regexp.MustCompile(`^\p{Ll}{2,40}$`)
+	capitalWord = regexp.MustCompile(`^\p{Lu}\p{Ll}{1,39}$`)
 	acronymWord = regexp.MustCompile(`^[A-Z]{2,5}$`)
 	acronyms    = []string{"XML", "URL", "ID", "HTTP", "JSON", "SQL", "IO", "API", "DTO", "BY", "GET", "ALL"}
 )
@@ -1319,7 +1636,7 @@ var (
 func wordsOK(words []string) bool {
 	for i, w := range words {
 		switch {
-		case plainWord.MatchString(w):
+		case lowerWord.MatchString(w):
 		case i == 0 && capitalWord.MatchString(w):
 		case acronymWord.MatchString(w):
 			if i > 0 && acronymWord.MatchString(words[i-1]) {
@@ -1357,7 +1674,7 @@ func camel(words []string) string {
 		if i == 0 || w == "" {
 			b.WriteString(w)
 		} else {
-			b.WriteString(strings.ToUpper(w[:1]) + w[1:])
+			b.WriteString(capitalise(w))
 		}
 	}
 	return b.String()
@@ -1365,9 +1682,18 @@ func camel(words []string) string {
 
 func genConcept(t *rapid.T) ConceptCase {
 	_, english, tech := stopWordLists()
+	odd := append([]string{}, lookAlikeWords...)
+	if !pbt.Excluded("non_ascii_letters_in_method_names") {
+		odd = append(odd, nonASCIIWords...)
+	}
 	word := rapid.Custom(func(t *rapid.T) string {
 		switch k := rapid.IntRange(0, 9).Draw(t, "wordKind"); {
 		case k < 5:
+			if rapid.IntRange(0, 5).Draw(t, "oddWord") == 5 {
+				// a word that contains or resembles a stop word, a very long word, a word with letters
+				// outside ASCII
+				return rapid.SampledFrom(odd).Draw(t, "oddWordText")
+			}
 			return rapid.SampledFrom(domainWords).Draw(t, "domainWord")
 		case k < 8:
 			return rapid.SampledFrom(tech).Draw(t, "techStopWord")
@@ -1376,18 +1702,26 @@ func genConcept(t *rapid.T) ConceptCase {
 		}
 	})
 	method := rapid.Custom(func(t *rapid.T) []string {
-		words := rapid.SliceOfN(word, 1, 5).Draw(t, "words")
+		maxWords := 5
+		if rapid.IntRange(0, 9).Draw(t, "longName") == 9 {
+			maxWords = 24
+		}
+		words := rapid.SliceOfN(word, 1, maxWords).Draw(t, "words")
 		switch rapid.IntRange(0, 7).Draw(t, "nameShape") {
 		case 6: // PascalCase
-			words[0] = strings.ToUpper(words[0][:1]) + words[0][1:]
+			words[0] = capitalise(words[0])
 		case 7: // one word is an acronym in capitals
 			i := rapid.IntRange(0, len(words)-1).Draw(t, "acronymAt")
 			words[i] = rapid.SampledFrom(acronyms).Draw(t, "acronym")
 		}
 		return words
 	})
-	class := rapid.SliceOfN(method, 0, 5)
-	classes := rapid.SliceOfN(class, 1, 4).Draw(t, "classes")
+	maxMethods, maxClasses := 5, 4
+	if rapid.IntRange(0, 11).Draw(t, "big") == 11 {
+		maxMethods, maxClasses = 12, 9
+	}
+	class := rapid.SliceOfN(method, 0, maxMethods)
+	classes := rapid.SliceOfN(class, 1, maxClasses).Draw(t, "classes")
 	// the same method name once more, in the same or in another class
 	var all [][]string
 	for _, cl := range classes {
@@ -1400,7 +1734,14 @@ func genConcept(t *rapid.T) ConceptCase {
 			classes[ci] = append(classes[ci], append([]string{}, src...))
 		}
 	}
-	return ConceptCase{Classes: classes, Cli: rapid.IntRange(0, 49).Draw(t, "cli") == 31}
+	c := ConceptCase{Classes: classes, Cli: rapid.IntRange(0, 49).Draw(t, "cli") == 31}
+	if c.Cli {
+		c.CliForm = rapid.IntRange(0, 2).Draw(t, "cliForm")
+	}
+	if rapid.IntRange(0, 2).Draw(t, "prev") == 2 {
+		c.Prev = rapid.SliceOfN(method, 1, 4).Draw(t, "prevNames")
+	}
+	return c
 }
 
 func checkConcept(c ConceptCase) pbt.Verdict {
@@ -1441,6 +1782,19 @@ func checkConcept(c ConceptCase) pbt.Verdict {
 		}
 		deps = append(deps, ds)
 	}
+	if len(c.Prev) > 0 {
+		// the names of another model are analysed first: the second report must not depend on it
+		other := []core_domain.CodeDataStruct{{NodeName: "Before", Package: "app", Type: "Class"}}
+		for _, words := range c.Prev {
+			if !wordsOK(words) {
+				return pbt.Verdict{Skip: true}
+			}
+			other[0].Functions = append(other[0].Functions, core_domain.CodeFunction{Name: camel(words), ReturnType: "void"})
+		}
+		if p := pbt.Call(func() { concept.NewConceptAnalyser().Analysis(&other) }); p != "" {
+			return pbt.Fail("ConceptAnalyser.Analysis panicked on the names analysed first: %s; names: %v", p, names(other))
+		}
+	}
 	var got string_helper.PairList
 	if p := pbt.Call(func() { got = concept.NewConceptAnalyser().Analysis(&deps) }); p != "" {
 		return pbt.Fail("ConceptAnalyser.Analysis panicked: %s", p)
@@ -1451,6 +1805,18 @@ func checkConcept(c ConceptCase) pbt.Verdict {
 	}
 	if sum != want {
 		return pbt.Fail("concept counts sum to %d, the method names hold %d words that are not stop words (of %d words); report: %v; names: %v", sum, want, total, got, names(deps))
+	}
+	// once more on the same model: nothing may have been used up or kept by the first analysis
+	var again string_helper.PairList
+	if p := pbt.Call(func() { again = concept.NewConceptAnalyser().Analysis(&deps) }); p != "" {
+		return pbt.Fail("second ConceptAnalyser.Analysis on the same model panicked: %s", p)
+	}
+	sum2 := 0
+	for _, p := range again {
+		sum2 += p.Value
+	}
+	if sum2 != want {
+		return pbt.Fail("second analysis of the same model: concept counts sum to %d, the method names hold %d words that are not stop words; report: %v; names: %v", sum2, want, again, names(deps))
 	}
 	v := pbt.Verdict{NonTrivial: stopped > 0 && want > 0}
 	repeated := false
@@ -1480,13 +1846,14 @@ func checkConcept(c ConceptCase) pbt.Verdict {
 	if acronym {
 		v.Classes = append(v.Classes, "name_with_acronym")
 	}
+	v.Classes = append(v.Classes, conceptLabels(c, distinct)...)
 	if c.Cli {
 		v.Classes = append(v.Classes, "cli")
 		dir := cli.Scratch("c18-concept-")
 		defer os.RemoveAll(dir)
 		raw, _ := json.Marshal(deps)
 		cli.WriteTree(dir, map[string]string{"deps.json": string(raw)})
-		res, err := cli.Run("coca", dir, nil, "concept", "-d", "deps.json")
+		res, err := cli.Run("coca", dir, nil, [][]string{{"concept", "-d", "deps.json"}, {"concept", "--dependence", "deps.json"}, {"concept", "--dependence=deps.json"}}[c.CliForm%3]...)
 		if err != nil {
 			panic("cannot run coca: " + err.Error())
 		}
@@ -1523,13 +1890,14 @@ func names(deps []core_domain.CodeDataStruct) []string {
 
 func init() {
 	pbt.SetProperty("C18")
-	pbt.Describe("count: rapid-generated code models (own generator: 1-5 classes whose simple names are their own or drawn from a small pool so that one name recurs in several packages; packages a, b, a.b, ab, bc, x.a ... that are suffixes/prefixes of each other; methods m, m0, m1, m10, run (no overloads), optional constructor; 0-5 calls per method to a declared method, to a pooled method name on a declared class (declared there or only on a namesake), to a declared method's class and name under another package, to external classes named like project ones, with an empty receiver, with a receiver without package, in constructor form; recorded calls repeated 0-3 times to raise multiplicities); oracle: per declared method the number of call sites whose full name equals it, absent when 0, sum == resolving sites; a second BuildCallMap over the same model gives the same map; string_helper.SortWord (the order `coca count` lists) applied three times to the map lists every entry once and in the same order each time; about 1 case in 40 also runs `coca count` twice on the same deps.json (identical stdout, table rows == reference). evaluate: generated Java projects (1-4 classes, one per file, flat or src/main/java layout, packages incl. com.acme.util / org.demo.service.utils; class names with the word Util, Utils, Service in front, in the middle, at the end or absent; a class may occur once more, methods included, in another package; no constructors, no interfaces; 0-5 methods with modifiers in drawn permutations of subsets of {public|private|protected, static, final, synchronized} or {public|protected, abstract} in abstract classes; 1 method in 6 generic (`<T>` between modifiers and return type); an optional annotation before or between the modifiers: @Nullable, @CheckForNull, both, @Nullable(), @javax.annotation.Nullable / @javax.annotation.CheckForNull, or one that is not a nullability annotation (@Deprecated, @SuppressWarnings, @NonNull, @NotNullable, @NullableDecl); parameters that carry @Nullable/@CheckForNull themselves; fields (annotated, static, initialised with null or \"null\") and initialiser blocks between the methods, after the last method and in classes without methods; among those members fields (plain, static final, @Nullable) and instance / static initialiser blocks that hold a lambda `() -> ...`, `s -> ...`, `(String s) -> ...` with a block body `{ return E; }`, `{ if (flag) { return E; } return E2; }` or an expression body, E drawn from everything a String method may return, null included: a lambda is not a method, so its returns make no method nullable, in particular not the method declared next; bodies of 0-3 statements (filler, statements that use the null literal without returning it: `value = null;`, `Object tmp = null;`, `if (value == null) {...}`, a local variable annotated @Nullable; a local variable initialised with a lambda of the same forms, whose returns are not the method's; if-return with or without braces, a return inside a for / while loop, a catch clause or a switch group, if-else-return) and a closing return whose expressions are null, literals, a field, conditional expressions with or without a null branch, and expressions that mention null without being able to return it (value == null, value != null ? value : \"d\", \"null\", a variable named nullable, String.valueOf(value == null), value == null ? 0 : count)), every file validated with the shipped ANTLR parser; analysed with JavaIdentifierApp + JavaFullApp + evaluate.Analyser as `coca analysis`/`coca evaluate` do; oracle from the description: ClassCount, MethodCount, StaticMethodCount (modifier set contains static), UtilsCount (by class name), Nullable.Items as a duplicate-free set; a second Analyser.Analysis on the same two lists gives the same numbers and the same set; 1 case in 10 also runs the two CLI commands and reads the stdout table. overloads: one class of 2-6 methods named from a pool of three names (same-named methods get parameter lists of different lengths), analysed twice, with its methods in the drawn order and in a drawn permutation of it; oracle: class / method / static counts as above (every overload is a method); a path none of whose overloads is nullable is absent from Nullable.Items, a path with k >= 1 nullable overloads is listed once or k times, and both orders give the same list as a multiset. concept: 1-4 classes x 0-5 methods named by 1-5 words (domain words, the tool's tech stop words, the tool's English stop words) in camelCase, 1 name in 8 PascalCase, 1 in 8 with one word replaced by an acronym in capitals (XML, URL, ID, BY ...), up to two method names repeated in the same or another class; oracle: sum of reported counts == number of words whose lower-case form is not in ENGLISH_STOP_WORDS u TechStopWords; 1 case in 50 through `coca concept`. Non-trivial: count = a method with >= 2 resolving sites and an unresolved site; evaluate = a static method whose static is not the last modifier or a return of null followed by a non-null return; overloads = two nullable overloads with another nullable method written between them in one of the two orders, and the order changed; concept = stop words and non-stop words both present.",
-		"evaluate: a null literal never occurs inside a returned expression other than as the returned value, a branch of a returned conditional expression, or an operand of == / != (e.g. not as a method argument: the repository's own fixture counts `return opt.orElse(null)` as returning null, the statement does not say); classes named with the word Util/Utils are the utility classes, whatever their package; in the evaluate sub-check method names are unique within a class; overloads are the subject of the overloads sub-check, which asserts only what both readings of 'each listed once' share (whether two nullable overloads are one entry or two is not settled by the statement)",
+	pbt.Describe("count: rapid-generated code models (own generator: 1-5 classes whose simple names are their own or drawn from a small pool so that one name recurs in several packages; packages a, b, a.b, ab, bc, x.a ... that are suffixes/prefixes of each other; methods m, m0, m1, m10, run (no overloads), optional constructor; 0-5 calls per method to a declared method, to a pooled method name on a declared class (declared there or only on a namesake), to a declared method's class and name under another package, to external classes named like project ones, with an empty receiver, with a receiver without package, in constructor form; recorded calls repeated 0-3 times to raise multiplicities; 1 model in 4 also has classes in the default package (empty package name: a call without package to such a class resolves), 1 in 4 draws names from a pool with case variants of pooled names (c0, M, Run, M0), names with `_`, `$`, a letter outside ASCII and an 80-letter name, 1 in 12 is large: up to 24 classes of up to 10 methods, more than 64 declared and more than 16 counted methods; 1 case in 3 first counts another model in the same process, one that declares and calls every method the case calls, and discards the result); oracle: per declared method the number of call sites whose full name equals it, absent when 0, sum == resolving sites; a second BuildCallMap over the same model gives the same map; string_helper.SortWord (the order `coca count` lists) applied three times to the map lists every entry once and in the same order each time; about 1 case in 40 also runs `coca count` twice on the same deps.json, the option spelled `-d f`, `--dependence f` or `--dependence=f` (identical stdout, table rows == reference). evaluate: generated Java projects (1-4 classes, one per file, flat or src/main/java layout, packages incl. com.acme.util / org.demo.service.utils; class names with the word Util, Utils, Service in front, in the middle, at the end or absent; a class may occur once more, methods included, in another package; 1 class in 6 is named outside that scheme: the bare word (Util, Utils, Service), one letter, the word followed by a digit, `_` or `$` (StringUtils2, Utils_1, Util$Helper), letters outside ASCII (Größe, ÉtatUtils), names of 170-190 letters; 1 class in 8 lies in the default package (no package declaration; none of its methods is nullable); 1 class in 4 has a dressed header: 0-2 annotations on the class (their arguments mention static / Util / Service), type parameters, `extends` and `implements` clauses naming types that are not declared in the project (some named ...Utils / ...Service); 1 class in 4 has 0-4 further imports (wildcard, static, duplicates, undeclared ...Utils classes) and imports @Nullable / @CheckForNull by name from javax.annotation, by wildcard, from another library (org.jetbrains.annotations, edu.umd.cs.findbugs.annotations) or not at all; 1 file in 4 has another layout: CRLF line ends, tabs for indentation, no final line terminator, text before the package declaration (blank lines, a line comment or block comment that holds a class / method returning null, a line of 70000 letters) and after the closing brace; 1 project in 12 is large (5-10 classes of up to 10 methods: more than 16 and 32 methods, more than 8 nullable ones); 1 project in 4 holds 1-4 files that declare no class: package-info.java with an annotated package, a .java file that is empty or holds only a commented-out class, README.md, *.java.bak, *.java~, *.java.txt and *.kt files whose text declares a ...Utils class with a static method returning null, a .gitignore that matches no source file; no constructors, no interfaces; 0-5 methods with modifiers in drawn permutations of subsets of {public|private|protected, static, final, synchronized} or {public|protected, abstract} in abstract classes; 1 method in 6 generic (`<T>` between modifiers and return type); an optional annotation before or between the modifiers: @Nullable, @CheckForNull, both, @Nullable(), @javax.annotation.Nullable / @javax.annotation.CheckForNull, or one that is not a nullability annotation (@Deprecated, @SuppressWarnings, @NonNull, @NotNullable, @NullableDecl); the two also with arguments (@Nullable(\"...\"), @CheckForNull(when = ...)) and with the package of another library; 1 method in 4 carries one more annotation that says nothing about null, at a drawn position before, between or after modifiers and the other annotations (@Override, @Deprecated, @SuppressWarnings(\"static-access\"), @SuppressWarnings({\"static\", \"null\"}), @javax.annotation.Nonnull, @org.demo.nullable.Checked, @Generated(\"static Nullable CheckForNull\")); 1 method in 6 is named from a pool of special names (staticLoad, isStatic, nullable, returnNull, getNull, checkForNull, utilService, $load, _save, load2, x, Load, LOAD, load_user, get, set, größe, nameÉ, имя, a name of 184 letters); 1 method in 3 has another layout: a comment on the lines before it (javadoc with `@return null`, `// @Nullable`, `// static`, a commented-out static method returning null), a block comment between modifiers and return type (/* static */, /* @Nullable */, /* return null; */), the header written one token per line or with runs of blanks and tabs between all tokens and inside the parentheses, the method starting on the line on which the member before it ends; parameters that carry @Nullable/@CheckForNull themselves; fields (annotated, static, initialised with null or \"null\") and initialiser blocks between the methods, after the last method and in classes without methods; among those members fields (plain, static final, @Nullable) and instance / static initialiser blocks that hold a lambda `() -> ...`, `s -> ...`, `(String s) -> ...` with a block body `{ return E; }`, `{ if (flag) { return E; } return E2; }` or an expression body, E drawn from everything a String method may return, null included: a lambda is not a method, so its returns make no method nullable, in particular not the method declared next; bodies of 0-3 statements (filler, statements that use the null literal without returning it: `value = null;`, `Object tmp = null;`, `if (value == null) {...}`, a local variable annotated @Nullable; a local variable initialised with a lambda of the same forms, whose returns are not the method's; the words `return null;` in a string literal and in line / block comments; if-return with or without braces, a return inside a for / while loop, a catch clause or a switch group, inside do-while, synchronized, a finally block, an if in an if in an if, a labelled block, the else branch of an if whose then branch does not return, if-else-return) and a closing return whose expressions are null, literals, a field, conditional expressions with or without a null branch, null in parentheses and under a cast (`(null)`, `(String) null`), `value == null ? null : value` (compares with null and returns it), a conditional nested in the else branch of another with or without a null branch, and expressions that mention null without being able to return it (value == null, value != null ? value : \"d\", \"null\", a variable named nullable, String.valueOf(value == null), value == null ? 0 : count)), every file validated with the shipped ANTLR parser; analysed with JavaIdentifierApp + JavaFullApp + evaluate.Analyser as `coca analysis`/`coca evaluate` do; oracle from the description: ClassCount, MethodCount, StaticMethodCount (modifier set contains static), UtilsCount (by class name), Nullable.Items as a duplicate-free set; a second Analyser.Analysis on the same two lists gives the same numbers and the same set; in 1 case in 3 another model (every class renamed to a ...Utils class, every method static and returning null, one more class) is evaluated in the same process just before; 1 case in 10 also runs the two CLI commands (`analysis -p proj` / `--path proj --identify=true` / `--path=proj -i`, `evaluate` without option / `-d coca_reporter/deps.json` / `--dependence=coca_reporter/deps.json`) and reads the stdout table. overloads: one class of 2-6 methods named from a pool of three names (same-named methods get parameter lists of different lengths), analysed twice, with its methods in the drawn order and in a drawn permutation of it; oracle: class / method / static counts as above (every overload is a method); a path none of whose overloads is nullable is absent from Nullable.Items, a path with k >= 1 nullable overloads is listed once or k times, and both orders give the same list as a multiset. concept: 1-4 classes x 0-5 methods (1 case in 12: up to 9 x 12) named by 1-5 words (1 name in 10: up to 24) in camelCase: domain words, the tool's tech stop words, the tool's English stop words, and 1 domain word in 6 from a pool of words that contain, begin or end with or extend a stop word (getter, setup, reset, budget, ids, keys, news, strings, returns, counter ...), words of 20-22 letters, and words with letters outside ASCII in the middle, at the end and at the beginning (größe, café, été, übersicht, état, имя: inside a name the last ones put a word boundary at a capital outside ASCII; switch non_ascii_letters_in_method_names); 1 name in 8 PascalCase, 1 in 8 with one word replaced by an acronym in capitals (XML, URL, ID, BY ...), up to two method names repeated in the same or another class; oracle: sum of reported counts == number of words whose lower-case form is not in ENGLISH_STOP_WORDS u TechStopWords, also when the same model is analysed a second time; in 1 case in 3 the 1-4 names of another model are analysed in the same process just before; 1 case in 50 through `coca concept` (`-d f`, `--dependence f`, `--dependence=f`). Non-trivial: count = a method with >= 2 resolving sites and an unresolved site; evaluate = a static method whose static is not the last modifier or a return of null followed by a non-null return; overloads = two nullable overloads with another nullable method written between them in one of the two orders, and the order changed; concept = stop words and non-stop words both present.",
+		"evaluate: a null literal never occurs inside a returned expression other than as the returned value (also in parentheses or under a cast), a branch of a returned conditional expression (also of a nested one), or an operand of == / != (e.g. not as a method argument: the repository's own fixture counts `return opt.orElse(null)` as returning null, the statement does not say); classes named with the word Util/Utils (followed by the end of the name, a capital, a digit, `_` or `$`) are the utility classes, whatever their package, superclass, interfaces, imports or annotations; names that merely contain the letters (Utility, Futile, Stringutil) are not generated; in the evaluate sub-check method names are unique within a class; overloads are the subject of the overloads sub-check, which asserts only what both readings of 'each listed once' share (whether two nullable overloads are one entry or two is not settled by the statement)",
 		"evaluate: a method returns null when one of its own return statements does: a return inside a lambda leaves the lambda (Java semantics), so neither a lambda in a field / initialiser block nor one in a method body makes a method nullable; anonymous and nested classes are not generated (whether their methods and the classes themselves are counted is not settled by the statement)",
 		"evaluate: only the 'Type Count' and 'Level Total' columns of the `coca evaluate` table are compared (the percentage column of the Static Method row is computed from the utility-class count: observed, outside the statement); coca_reporter/evaluate.json is not read because it is written empty whenever a standard deviation is NaN",
-		"evaluate: generator feature switches (pbt.Excluded): return_mentions_null, generic_method, qualified_nullable_annotation, lambda_in_method_returns_null",
-		"concept: lower-case words are 2-12 letters (single-letter words are merged by the camel-case splitter), acronyms 2-5 capitals and never adjacent to another acronym, no digits or underscores: for those shapes the words of a name are not in doubt",
-		"count: no overloads and no class-level (field) calls in the models: the statement does not say how they count")
+		"evaluate: generator feature switches (pbt.Excluded): return_mentions_null, generic_method, qualified_nullable_annotation, lambda_in_method_returns_null; concept: non_ascii_letters_in_method_names",
+		"evaluate: a method annotated @Nullable / @CheckForNull is nullable whichever library the annotation is imported from, also when it is not imported, and whatever arguments it carries; how a nullable method of a class in the default package is named in the list is not settled by the statement, so classes of the default package have no nullable methods (their class / method / static / utility counts are asserted); files that the tool's own source filter leaves out by design (names ending in Test.java / Tests.java, src/test/java, paths containing testData) and a byte order mark (the shipped parser rejects it) are not generated; every generated .java file, also the ones without a class, passes the shipped parser",
+		"concept: lower-case words are 2-40 letters of any alphabet with two cases (single-letter words are merged by the camel-case splitter), acronyms 2-5 ASCII capitals and never adjacent to another acronym, no digits, `$` or underscores: for those shapes the words of a name are not in doubt (a capital, ASCII or not, begins a word)",
+		"count: no overloads and no class-level (field) calls in the models: the statement does not say how they count; `coca count --top n` is not run (what a truncated listing holds is outside the statement)")
 	pbt.Register("count", 2000, 12000, genCount, checkCount)
 	pbt.Register("evaluate", 300, 2000, genEval, checkEval)
 	pbt.Register("concept", 1500, 8000, genConcept, checkConcept)
